@@ -12,7 +12,7 @@ ok, log = C.coq_make([], timeout=3000)
 print(log[-3000:])
 if not ok:
     sys.exit(1)
-for d in ("leaf_main", "seq_main", "lin_main", "epoch_main", "sess_main"):
+for d in ("leaf_main", "seq_main", "lin_main", "epoch_main", "sess_main", "border_main", "chain_main", "ver_main"):
     ok, log = C.build_model(d)
     if not ok:
         print(log[-3000:]); sys.exit(1)
